@@ -19,11 +19,36 @@
 /* Uninitialised heap memory: ASan fills fresh allocations with 0xbe, which reads as TRUE / non-NULL and hides a
  * forgotten initialisation (e.g. a useme[] flag never written). Fill with 0x00 on odd seeds and 0xff on even seeds so
  * that both readings are exercised (ASAN_OPTIONS from the environment still take precedence for what they set). */
-const char *__asan_default_options(void);
-const char *__asan_default_options(void)
+#include <sys/syscall.h>
+#include <fcntl.h>
+#include <unistd.h>
+__attribute__((no_sanitize("address", "undefined"))) const char *__asan_default_options(void);
+__attribute__((no_sanitize("address", "undefined"))) const char *__asan_default_options(void)
 {
-  const char *s = getenv("VERIF_SEED");
-  long seed = s ? strtol(s, NULL, 10) : 1;
+  /* Called by the ASan runtime before libc has set up environ (getenv() answers NULL here, so the 0xff pattern was never
+   * selected) and before the interceptors work: read VERIF_SEED from /proc/self/environ with raw system calls and
+   * hand-written loops only; the function itself must not be instrumented (no shadow memory yet). */
+  static char env[1 << 16];
+  static const char key[] = "VERIF_SEED=";
+  long seed = 1, n = 0, i, k;
+  long fd = syscall(SYS_openat, AT_FDCWD, "/proc/self/environ", O_RDONLY);
+  if (fd >= 0) {
+    long got;
+    while (n < (long) sizeof env - 1 && (got = syscall(SYS_read, (int) fd, env + n, sizeof env - 1 - (size_t) n)) > 0) n += got;
+    syscall(SYS_close, (int) fd);
+  }
+  env[n] = 0;
+  for (i = 0; i < n; ) {
+    for (k = 0; k < 11 && env[i + k] == key[k]; k++) ;
+    if (k == 11) {
+      long v = 0; int any = 0;
+      for (i += 11; env[i] >= '0' && env[i] <= '9'; i++) { v = v * 10 + (env[i] - '0'); any = 1; }
+      if (any) seed = v;
+      break;
+    }
+    while (i < n && env[i]) i++;
+    i++;
+  }
   return (seed % 2) ? "malloc_fill_byte=0:max_malloc_fill_size=1048576" : "malloc_fill_byte=255:max_malloc_fill_size=1048576";
 }
 
